@@ -41,7 +41,11 @@ def main(c):
         for x in rnd.sample(privs, 4):
             for b in rnd.sample(blinds, 2):
                 lines.append("dhkey %s %s %s" % (h(y, 512), h(x, 64), h(b, 64)))
-    for y in peers + [p - 1 - (1 << k) for k in (0, 8, 2040)] + [p + (1 << k) for k in (0, 8, 1000)] + [p ^ (1 << k) for k in range(0, 2048, 97)]:
+        # the shared key written over the peer's value
+        lines.append("dhkeyi %s %s %s" % (h(y, 512), h(rnd.choice(privs), 64), h(rnd.choice(blinds), 64)))
+    for y in (peers + [p - 1 - (1 << k) for k in (0, 8, 2040)] + [p + (1 << k) for k in (0, 8, 1000)] + [p ^ (1 << k) for k in range(0, 2048, 97)]
+              + [p - (1 << k) for k in range(0, 2048, c.pick(37, 5))] + [p + (1 << k) for k in range(0, 2047, c.pick(41, 5))]
+              + [p - rnd.getrandbits(k) for k in (9, 60, 70, 200, 1000, 1990, 2040)] + [p + rnd.getrandbits(k) for k in (9, 60, 70, 200, 1000, 1980)]):
         if 0 <= y < (1 << 2048):
             lines.append("dhsane " + h(y, 512))
     # agreement on the library's own outputs: key(pub(a), b) = key(pub(b), a)
